@@ -460,6 +460,42 @@ def make_copy(name, consts, L="2", N="2"):
     raise ExtractionError("unknown copy layer")
 
 
+# ---------------------------------------------------------------- serialisers without own configuration
+FIELD = CORE + "field.hpp"
+THIN_SUBST = IO_SUBST + [
+    (r"\bIO_MAGIC_HEADER\b", "verif_layer_tag_obj", 0, True),
+    (r"(?s)\bauto\s+be\s*=\s*(?:backend_t::owning_data_t|__typeof__\s*\(\s*m_backend\s*\))\s*::\s*read_binary\s*\(", "B_OWN_T be = backend_read_binary(", 0, True),
+    (r"(?s)(?:backend_t::owning_data_t|__typeof__\s*\(\s*m_backend\s*\))\s*::\s*write_binary\s*\(\s*fs\s*,\s*o\s*\.\s*m_backend\s*\)", "backend_write_binary(fs, &o.m_backend)", 0, True),
+    (r"(?s)(?:backend_t::owning_data_t|__typeof__\s*\(\s*m_backend\s*\))\s*::\s*write_binary\s*\(\s*fs\s*,\s*m_backend\s*\)", "backend_write_binary(fs, &m_backend)", 0, True),
+    (r"(?s)__typeof__\s*\(\s*m_backend\s*\)\s*::\s*read_binary\s*\(", "backend_read_binary(", 0, True),
+    (r"(?s)owning_data_t\s*\(\s*configuration_t\s*\{\s*\}\s*,\s*std::move\s*\(\s*be\s*\)\s*\)", "verif_thin_own_ctor(be)", 0, True),
+    (r"(?s)\breturn\s+owning_data_t\s*\(\s*\)\s*;", "return verif_ident_own_ctor();", 0, True),
+]
+THIN_FILES = {"1": (LINEAR, "struct linear"), "2": (NN, "struct nearest_neighbour"), "3": (SHUFFLE, "struct shuffle"), "4": (IDENTITY, "struct identity")}
+
+
+def make_thin_io(name, consts, T="1"):
+    fns = binio_fns()
+    if T in ("1", "2", "3"):
+        f, sc = THIN_FILES[T]
+        fns.append(Fn("thin_read_binary", f, [sc, "struct owning_data_t"], "read_binary", ret="THIN_OWN_T", ptypes=["VERIF_ISTREAM *"],
+                      subst=THIN_SUBST, throws=True, propagate=MAY_THROW, dummy_ret="((THIN_OWN_T){{0}})"))
+        fns.append(Fn("thin_write_binary", f, [sc, "struct owning_data_t"], "write_binary", ret="void", ptypes=["VERIF_OSTREAM *", "const THIN_OWN_T *"],
+                      subst=THIN_SUBST, refparams=["o"]))
+    elif T == "4":
+        f, sc = THIN_FILES[T]
+        fns.append(Fn("ident_read_binary", f, [sc, "struct owning_data_t"], "read_binary", ret="IDENT_OWN_T", ptypes=["VERIF_ISTREAM *"],
+                      subst=THIN_SUBST, throws=True, propagate=MAY_THROW, dummy_ret="((IDENT_OWN_T){0})"))
+        fns.append(Fn("ident_write_binary", f, [sc, "struct owning_data_t"], "write_binary", ret="void", ptypes=["VERIF_OSTREAM *", "const IDENT_OWN_T *"],
+                      subst=THIN_SUBST))
+    elif T == "5":
+        fns.append(Fn("field_load", FIELD, ["class field"], "field", params_hint=r"std::istream", ret="void", ptypes=["VERIF_ISTREAM *"], ctor=True,
+                      method="THIN_OWN_T *self", members=["m_backend"], subst=THIN_SUBST, throws=True, propagate=MAY_THROW, dummy_ret=""))
+        fns.append(Fn("field_dump", FIELD, ["class field"], "dump", ret="void", ptypes=["VERIF_OSTREAM *"],
+                      method="const THIN_OWN_T *self", members=["m_backend"], subst=THIN_SUBST))
+    return Unit(name, fns, "contracts/thin_io.h", "lemmas/thin_io.c")
+
+
 def get_unit(name, consts=None):
     """name is 'base' or 'base@k=v,k=v' for units whose extraction depends on template arguments."""
     if name in UNITS:
@@ -488,3 +524,4 @@ FACTORIES["identity"] = make_identity
 FACTORIES["linear"] = make_linear
 FACTORIES["layer_io"] = make_layer_io
 FACTORIES["copy"] = make_copy
+FACTORIES["thin_io"] = make_thin_io
